@@ -11,10 +11,10 @@ use crate::verif_env::{clock, cut, cut_reached, rnd, uf};
 
 #[derive(Debug, Clone)]
 struct Gate(bool);
-static mut GATE_CALLS: usize = 0;
+static mut GATE_CALLS: crate::verif_env::Ghost<usize> = crate::verif_env::ghost(36, 0);
 impl RequestFilter for Gate {
     fn allow_request(&self, _request: &RequestSpecific, _from: SocketAddrV4) -> bool {
-        unsafe { GATE_CALLS += 1 };
+        unsafe { GATE_CALLS.v += 1 };
         self.0
     }
 }
@@ -40,9 +40,9 @@ fn closest_cut(_rt: &RoutingTable, _t: Id) -> Box<[crate::common::Node]> {
     cut();
     Box::new([])
 }
-static mut CLOSEST_ASKED: Option<Id> = None;
+static mut CLOSEST_ASKED: crate::verif_env::Ghost<Option<Id>> = crate::verif_env::ghost(37, None);
 fn closest_probe(_rt: &RoutingTable, t: Id) -> Box<[crate::common::Node]> {
-    unsafe { CLOSEST_ASKED = Some(t) };
+    unsafe { CLOSEST_ASKED.v = Some(t) };
     Box::new([])
 }
 
@@ -125,8 +125,8 @@ fn c04_o1_put_mutable_rules() {
     let replay_sig: bool = kani::any();
     let sb: u8 = if replay_sig { 2 } else { 5 };
     unsafe {
-        mh::CONTRACT_SIG_VALID = sig_valid;
-        mh::CONTRACT_TARGET_OK = target_ok;
+        mh::CONTRACT_SIG_VALID.v = sig_valid;
+        mh::CONTRACT_TARGET_OK.v = target_ok;
     }
     let req = RequestSpecific {
         requester_id: Id::from([2u8; 20]),
@@ -242,7 +242,7 @@ fn c04_o5_get_mutable() {
         }
         _ => assert!(false, "C04.O5 get answered with a value, a seq or NoValues"),
     }
-    assert!(unsafe { CLOSEST_ASKED } == Some(target), "C11.O5 reply nodes are the routing table's closest(target)");
+    assert!(unsafe { CLOSEST_ASKED.v } == Some(target), "C11.O5 reply nodes are the routing table's closest(target)");
     let after = server.mutable_values.peek(&stored_t);
     assert!(after.is_some() == has, "C04.O5 get leaves the store unchanged");
     assert!(!cut_reached(), "CUT: another arm reached");
@@ -282,8 +282,8 @@ fn c04_o6_capacity_one_eviction() {
     server.mutable_values.put(t1, MutableItem::kani_build(t1, [1; 32], [2; 64], Box::new([9]), seq0, None));
     let seq: i64 = kani::any();
     unsafe {
-        mh::CONTRACT_SIG_VALID = true;
-        mh::CONTRACT_TARGET_OK = true;
+        mh::CONTRACT_SIG_VALID.v = true;
+        mh::CONTRACT_TARGET_OK.v = true;
     }
     let req = RequestSpecific {
         requester_id: Id::from([2u8; 20]),
@@ -457,7 +457,7 @@ fn c03_o4_announce_signed_peer() {
     let token: Box<[u8]> = if use_good { Box::new(good) } else { any_token() };
     let t: u64 = kani::any();
     let ok: bool = kani::any();
-    unsafe { sh::CONTRACT_OK[0] = ok };
+    unsafe { sh::CONTRACT_OK.v[0] = ok };
     let info_hash = Id::from(T1);
     let req = RequestSpecific {
         requester_id: Id::from([2u8; 20]),
@@ -479,7 +479,7 @@ fn c03_o4_announce_signed_peer() {
         assert!(code_of(&reply) == Some(203), "C03.O4 invalid signed announce answered 203");
         assert!(peers.is_none(), "C03.O5 rejected announce stores nothing");
         if !token_ok {
-            assert!(unsafe { sh::CONTRACT_CALLS } == 0, "C03.O4 token checked before the signature");
+            assert!(unsafe { sh::CONTRACT_CALLS.v } == 0, "C03.O4 token checked before the signature");
         }
     }
     assert!(!cut_reached(), "CUT: another arm reached");
@@ -527,7 +527,7 @@ fn c03_o6_filter_veto() {
     };
     let reply = server.handle_request(&rt, &rt, from, RequestSpecific { requester_id: Id::from([2u8; 20]), request_type });
     assert!(reply.is_none(), "C03.O6 vetoed request gets no reply");
-    assert!(unsafe { GATE_CALLS } == 1, "C03.O6 filter consulted once");
+    assert!(unsafe { GATE_CALLS.v } == 1, "C03.O6 filter consulted once");
     assert!(server.immutable_values.len() == 0 && server.mutable_values.len() == 0, "C03.O6 vetoed request stores nothing");
     assert!(server.peers.get_random_peers(&target).is_none(), "C03.O6 vetoed request stores nothing");
     // the secrets were not rotated: the token issued before is still the *current* one
@@ -540,9 +540,9 @@ fn c03_o6_filter_veto() {
     std::mem::forget(rt);
 }
 
-static mut H_ANY: [u8; 20] = [0; 20];
+static mut H_ANY: crate::verif_env::Ghost<[u8; 20]> = crate::verif_env::ghost(38, [0; 20]);
 fn h_any(_v: &[u8]) -> [u8; 20] {
-    unsafe { H_ANY }
+    unsafe { H_ANY.v }
 }
 
 //@ ob: C03.O7
@@ -564,9 +564,9 @@ fn h_any(_v: &[u8]) -> [u8; 20] {
 fn c03_o7_size_boundaries() {
     clock::set(0);
     unsafe {
-        H_ANY = T1;
-        mh::CONTRACT_SIG_VALID = true;
-        mh::CONTRACT_TARGET_OK = true;
+        H_ANY.v = T1;
+        mh::CONTRACT_SIG_VALID.v = true;
+        mh::CONTRACT_TARGET_OK.v = true;
     }
     let mut server = small_server(1, true);
     let rt = RoutingTable::new(Id::from(ME));
